@@ -693,7 +693,12 @@ fn one_keyed(cx: &mut Ctx, pools: &mut Pools, rows: &[KRow], size: u64, off: u64
                 // independent of the model: the rows that survive, in input order, with their own windows
                 let want: Vec<(i64, i64)> = rows.iter().filter(|r| r.2.wrapping_mul(2) % 4 == 0).map(|r| (r.0, r.2.wrapping_mul(2).wrapping_add(1))).collect();
                 let got: Vec<(i64, i64)> = out.iter().map(|((k, _), v)| (*k, *v)).collect();
-                if got != want { cx.oracle_fail(i, "kkbwv-value-steps-not-as-written", format!("want {want:?}, got {got:?}")); }
+                // "steps as written" is C02/C03's statement, not C13's: judged only when this runs for C03's census
+                // (C13 itself judges the windows and the panics; the exact rows are tied through the model answer)
+                if got != want {
+                    if cx.prop == "C03" { cx.oracle_fail(i, "kkbwv-value-steps-not-as-written", format!("want {want:?}, got {got:?}")); }
+                    else { cx.count("wgroup:kkbwv:rows-differ-from-steps-as-written(not judged under C13)"); }
+                }
                 let ts: Vec<u64> = rows.iter().filter(|r| r.2.wrapping_mul(2) % 4 == 0).map(|r| r.1).collect();
                 if ts.len() == out.len() {
                     for (j, (((_, w), _), t)) in out.iter().zip(ts.iter()).enumerate() {
